@@ -5,8 +5,12 @@ FAMILIES = ['timeout', 'shutdown', 'resize']
 PER_FAMILY = (350, 8000)
 
 
+PROOF = dict(prop_file='Props/C07.v', theorems=['C07_no_duplicate_execution', 'C07_token_unique', 'C07_sentinel_exit_holds_no_task'], tf_families=['timeout', 'shutdown', 'resize'], tf_per_family=(100, 1500),
+             note="'never marked broken' and 're-spawn keeps work flowing' are decided by the simulation monitors (H2 is a known finding); the theorems cover no-duplicate / no-task-held-at-exit")
+
+
 def run(ctx):
-    return S.sim_check(ctx, FAMILIES, FAMILIES, PER_FAMILY, S.SIM_ASSUME)
+    return S.sim_check(ctx, FAMILIES, FAMILIES, PER_FAMILY, S.SIM_ASSUME, proof=PROOF)
 
 
 def replay(ctx, path):
